@@ -461,6 +461,11 @@ class Seams:
         Template.generate = generate  # type: ignore
 
 
+def is_mutating(kind: str) -> bool:
+    """Event kinds (as recorded) that change the disk."""
+    return kind == "open-w" or kind in MUTATING
+
+
 class SeamMissing(Exception):
     """A name the simulator patches no longer exists: a harness error, never a violation."""
 
